@@ -22,8 +22,21 @@ func verifCDriver(args ...string) []string {
 	if drv == "" {
 		panic(verifDiverged{"VERIF_CDRIVER not set"})
 	}
-	out, err := exec.Command(drv, args...).Output()
+	// the driver is built with AddressSanitizer, which needs an unlimited address space
+	cmd := exec.Command("bash", append([]string{"-c", `ulimit -S -v unlimited 2>/dev/null; exec "$0" "$@"`, drv}, args...)...)
+	cmd.Env = append(os.Environ(), "ASAN_OPTIONS=detect_leaks=0:exitcode=77:abort_on_error=0")
+	var stderr bytes.Buffer
+	cmd.Stderr = &stderr
+	out, err := cmd.Output()
 	if err != nil {
+		if ee, ok := err.(*exec.ExitError); ok && ee.ExitCode() != 2 {
+			// the C code crashed, aborted or tripped the sanitizer
+			msg := stderr.String()
+			if len(msg) > 600 {
+				msg = msg[:600]
+			}
+			panic(verifCFault{"C driver " + args[0] + ": " + err.Error() + ": " + msg})
+		}
 		panic(verifDiverged{"C driver: " + err.Error()})
 	}
 	return strings.Fields(string(out))
@@ -71,6 +84,26 @@ func VerifC_ref_encode(buf []byte, updateIndex uint64, valType int, v1, v2 []byt
 	n, _ := strconv.Atoi(f[0])
 	verifUnhexInto(buf, f[1])
 	return n
+}
+
+// VerifC_scan opens the table with the C reader and returns the canonical dump
+// (see harness/cshim.c) of the refs from seek_ref(arg) (mode 0), the logs from
+// seek_log_at(arg, idx) (mode 1) or the refs from refs_for(arg) (mode 2).
+func VerifC_scan(table []byte, mode int, arg []byte, idx uint64, outcap int) ([]byte, int) {
+	f := verifCDriver("scan", verifHex(table), strconv.Itoa(mode), verifHex(arg), strconv.FormatUint(idx, 10), strconv.Itoa(outcap))
+	n, _ := strconv.Atoi(f[0])
+	b, _ := hex.DecodeString(strings.TrimPrefix(f[1], "x"))
+	return b, n
+}
+
+// VerifC_write writes a table with the C writer from a canonical record stream.
+// flags: 1 unpadded, 2 skip_index_objects, 4 exact_log_message, 8 sha256.
+func VerifC_write(desc []byte, blockSize uint32, restartInterval int, flags int, min, max uint64, outcap int) ([]byte, int) {
+	f := verifCDriver("write", verifHex(desc), strconv.FormatUint(uint64(blockSize), 10), strconv.Itoa(restartInterval), strconv.Itoa(flags),
+		strconv.FormatUint(min, 10), strconv.FormatUint(max, 10), strconv.Itoa(outcap))
+	n, _ := strconv.Atoi(f[0])
+	b, _ := hex.DecodeString(strings.TrimPrefix(f[1], "x"))
+	return b, n
 }
 
 var _ = fmt.Sprint
